@@ -1,14 +1,14 @@
 SPECIFICATION Spec
 CONSTANTS
   MaskUpdated = TRUE
-  MaxOps = 4
-  MaxRep = 4
-  MaxPool = 3
-  Sizes = {0, 1, 2}
-  MaxParts = 3
-  Fams = {"wf", "dup"}
-  Take = TRUE
-  Linear = FALSE
+  MaxOps = 8
+  MaxRep = 2
+  MaxPool = 2
+  Sizes = {1}
+  MaxParts = 1
+  Fams = {"rep"}
+  Take = FALSE
+  Linear = TRUE
   Export = TRUE
 VIEW View
 INVARIANTS MaskExact DuplicateFree CompleteExact LastStepLegal Commutes Idempotent ForeignInert NoBugWhenMaskUpdated
